@@ -27,7 +27,7 @@ ASSUMPTIONS = [
 ]
 DECIDING = ['bp.util:BundleContainer.create_report', 'bp.agent:Agent._finish_bundle', 'bp.agent:Agent._do_fwd',
             'bp.agent:Agent.recv_bundle', 'bp.app.fragment:Fragment._create']
-REQUIRED_OBS = ['combinations', 'reports_expected', 'reports_checked', 'no_report_expected', 'forwards_sent_as_fragments']
+REQUIRED_OBS = ['stack_report_obligations', 'combinations', 'reports_expected', 'reports_checked', 'no_report_expected', 'forwards_sent_as_fragments']
 
 NODE = 'dtn://me/'
 OUTCOMES = ['deliver', 'deliver-admin', 'forward', 'forward-frag', 'delete', 'no-route', 'security', 'duplicate', 'forward-fail', 'forward-frag-fail', 'security-bcb',
@@ -83,6 +83,8 @@ def cases(tier, seed):
     for idx in range(0, len(combos), block):
         out.append(dict(id='combo-%d' % idx, start=idx, stop=idx + block, variants=(160 if tier == 'thorough' else 1), seed=seed))
     out.append(dict(id='frag-history', kind='frag-history', start=0, stop=0, variants=1, seed=seed))
+    from vf import stackcases  # pylint: disable=import-outside-toplevel
+    stackcases.add_cases(out, tier, seed)
     return out
 
 
@@ -312,6 +314,9 @@ def fragment_history(mask, obs):
 
 
 def run_case(case):
+    if case.get('kind') == 'stack':
+        from vf import stackcases  # pylint: disable=import-outside-toplevel
+        return stackcases.run_block(PROPERTY_ID, case)
     if case.get('kind') == 'frag-history':
         obs = dict(combinations=0, reports_expected=0, reports_checked=0, no_report_expected=0, forwards_sent_as_fragments=0)
         violations = []
